@@ -4,7 +4,12 @@
    inputs: Codec.Custom (the model of the hand-written codec) against the former, Codec.Wire (grammar +
    schema specification) against the latter. *)
 From LS Require Import Base.Bytes Base.Res Merge.Model Codec.Varint Codec.Loop Codec.Wire Codec.Custom Corr.Obs.
+From Coq Require Strings.Byte.
 Open Scope N_scope.
+
+(* byte strings in the cases files are lists of the 256 constructors of Coq.Init.Byte.byte (the hex string
+   literals of Base.Hex cost about 0.15 ms per byte to read, these about 0.03 ms) *)
+Definition bs (l : list Coq.Init.Byte.byte) : bytes := map Coq.Strings.Byte.to_N l.
 
 (* what decoding a blob did: Unmarshal + full iteration of every DBI *)
 Inductive dobs :=
@@ -51,8 +56,12 @@ Inductive ccase :=
 (* snapshot s given to the real hand-written encoder (DBIs built as the syncer builds them, WriteTo):
    [enc] is what it wrote (or that it panicked), [dec] what the real hand-written decoder made of it *)
 | CEnc (s : snap) (enc : obs) (dec : dobs)
+(* the common case written short: it wrote [enc] and the decoder returned exactly s *)
+| CEncS (s : snap) (enc : bytes)
 (* message b of the wire grammar: [custom] = real hand-written decoder, [ref] = generated reference decoder *)
 | CMsg (b : bytes) (custom ref : dobs)
+(* the common case written short: both decoders returned [o] *)
+| CMsgS (b : bytes) (o : dobs)
 (* message b outside the wire grammar of Codec.Wire (group wire types): hand-written decoder only *)
 | CCus (b : bytes) (custom : dobs).
 
@@ -67,7 +76,10 @@ Definition ccheck (c : ccase) : bool :=
          | OBytes b => dobs_eqb (model_decode b) dec
          | _ => true
          end
+  | CEncS s b =>
+      obs_eqb (obs_of_res (custom_encode s)) (OBytes b) && dobs_eqb (model_decode b) (DOk s)
   | CMsg b cu rf => dobs_eqb (model_decode b) cu && dobs_eqb (model_spec b) rf
+  | CMsgS b o => dobs_eqb (model_decode b) o && dobs_eqb (model_spec b) o
   | CCus b cu => dobs_eqb (model_decode b) cu
   end.
 
@@ -122,7 +134,9 @@ Definition cids (c : ccase) : list N :=
   match c with
   | CEnc s enc dec =>
       (match enc with OBytes _ => 6010 | OPanic => 6011 | _ => 6012 end) :: outcome_id 6000 dec :: enc_ids s
+  | CEncS s _ => 6010 :: 6000 :: enc_ids s
   | CMsg b cu rf => outcome_id 6020 cu :: outcome_id 6030 rf :: msg_ids b
+  | CMsgS b o => outcome_id 6020 o :: outcome_id 6030 o :: msg_ids b
   | CCus b cu => [outcome_id 6040 cu]
   end.
 
